@@ -1478,7 +1478,7 @@ fn slots(quick: bool) -> Vec<Slot> {
             s("g.c.z.", 1, &[&[], &[T_A]]),
             s("o.c.z.", 1, &[&[], &[T_TXT], &[T_NS]]),
             s("d.z.", 1, &[&[], &[T_NS, T_DS], &[T_NS, T_DS, T_TXT, T_A, T_A]]),
-            s("e.f.z.", 1, &[&[], &[T_A], &[T_CNAME]]),
+            s("e.f.z.", 1, &[&[], &[T_A]]),
             s("h.f.z.", 1, &[&[], &[T_A], &[T_NS]]),
             s("k.e.f.z.", 1, &[&[], &[T_A]]),
         ]
